@@ -17,6 +17,8 @@ import Hw.Io.SyntheticTopo
 import Hw.Io.SyntheticDump
 import Hw.Io.SyntheticWFAll
 import Hw.Io.SyntheticWF15
+import Hw.Io.SyntheticOrder4
+import Hw.Io.SyntheticFix2
 import Hw.Io.SyntheticFix
 import Hw.Topo.WF
 import Driver.Topo
@@ -245,6 +247,8 @@ def step (u : Unit) (line : String) : Unit × String :=
                   else if !topoOK t || !puOK t || !memOK t || !numaOK t || !sibOK t then
                     (u, "load HYP-FAIL" ++ (if topoOK t then "" else " topoOK") ++ (if puOK t then "" else " puOK") ++
                       (if memOK t then "" else " memOK") ++ (if numaOK t then "" else " numaOK") ++ (if sibOK t then "" else " sibOK"))
+                  -- C07_order_establishes_sib_partial: the two halves of sibOK and the PU count as a product of the arities
+                  else if !(sibNormalOK t && sibMemOK t) || prodL (arities t) != t.puIdx.length then (u, "load HYP-FAIL order")
                   else (u, "load ok regular")
               else
                 let what := if a.levels != t.levels then "levels" else if a.rootMem != t.rootMem then "rootmem"
@@ -287,7 +291,8 @@ def step (u : Unit) (line : String) : Unit × String :=
             -- C07_export_fixpoint_partial (flags NO_ATTRS|IGNORE_MEMORY): the exported string - compared byte for byte with hwloc's -
             -- must be `printDesc` of the level structure, and re-importing it must give back exactly those types and arities
             let fixHyp : String :=
-              if flags ≠ fixFlags then "" else
+              -- ... and C07_export_fixpoint_flags_partial: the same under 11, 14, 15 when these flags change no level name
+              if !(fixFlagsB flags && t.levels.all (nameStable flags)) then "" else
               match specsOf t.levels with
               | none => "no-canonical-name"
               | some specs =>
